@@ -9,6 +9,26 @@ NOTE_STD = ("Trusted: Lean kernel, axioms propext/Classical.choice/Quot.sound as
             "the correspondence harness (sampled tie between model and code). ")
 
 CHECKS = {
+    "C01": dict(
+        text="Lean theorems about a model of the .zo compiler (generated file-lexer DFAs + line/atom reading of ZorgFile.g4 + the listener's state machine): "
+        "every note of a compiled page is an item line's (at most one note per item, line/kind/priority/body of that item; comments, headers, blank and "
+        "continuation lines never become notes), notes are appended in file order, and after the first three body words nothing can change the identity "
+        "(ZID, dates) - tight. The model is compared field by field with walk_zorg_page on generated pages (every kind, priority, 7 identity shapes, 55 word "
+        "forms with look-alikes, bullets, irregular spacing, in-block comments, CRLF) and the pages' token streams with the real lexer.",
+        note=NOTE_STD + "ANTLR's ALL(*) parse is not modelled: the line/atom reading is validated on every generated page (sampled). Character-level lexing of body "
+        "words rests on the token correspondence.",
+        technique="Lean 4 proof (page automaton invariants, identity window) + compile correspondence",
+        design="§4 C01",
+    ),
+    "C02": dict(
+        text="Lean theorems about the scoping logic of the compiler model: opening a level-k header removes exactly the scopes of level >= k, the stack of open "
+        "sections is strictly increasing at all times, every note is built from the file scope and that stack only, in-block comments are inert, all-digit "
+        "tags never enter a scope, scope flags gate tags/props/dates, innermost property wins. Tied to the code on every legal header sequence up to 6 (8) "
+        "headers, exhaustively, with uniquely named decorations on title, header lines, section headers, comments and notes.",
+        note=NOTE_STD + "The correspondence between the listener's per-level stores and the model's scope stack is validated, not proved.",
+        technique="Lean 4 proof (scope-stack invariant over the page automaton) + exhaustive skeleton correspondence",
+        design="§4 C02",
+    ),
     "C03": dict(
         text="Lean theorem C03_refines: for every index, note and filter tree (any depth, every atom kind, every literal incl. % _ \\) the meaning of the "
         "emitted SQL (model of _query_converter.py helper by helper, with SQLite LIKE/ESCAPE, lower, date, CAST, IN/NOT IN) equals the specification "
@@ -31,6 +51,16 @@ CHECKS = {
         technique="Lean 4 proof (parser model computes the denotation, induction over syntax trees) + generated lexer + correspondence",
         design="§4 C04",
     ),
+    "C08": dict(
+        text="PARTIAL. Lean: the listener's string processing is total for every input (identity words, metadata events, bullet-property scan: no crash branch "
+        "reachable), and the flag / refusal decision logic (unflagged iff indexed, flagged => refused unless whitelisted or forced, never indexed as an "
+        "ordinary page; flag iff parser error AND a note was reached + kernel-checked counterexample for the full statement). Sampled, not proved: that the "
+        "ANTLR runtime terminates without raising and which texts it reports as erroneous - damaged-stream correspondence (valid pages with random edits, "
+        "truncations, random strings over several alphabets) plus create / -f / whitelist / repeated-reindex refusal scenarios.",
+        note=NOTE_STD + "ANTLR runtime behaviour on arbitrary text is outside the model. Unflagged broken pages without notes are a recorded known finding.",
+        technique="Lean 4 proof (totality of listener string processing, decision logic) + damaged-stream fault sampling",
+        design="§4 C08",
+    ),
     "C09": dict(
         text="Lean theorems about a model of the executor (group -> order -> select): the rendered tree contains every matching note exactly once "
         "(permutation), every note sits under labels equal to its key per GROUP BY dimension, sibling labels strictly increasing, leaves sorted by the "
@@ -49,6 +79,16 @@ CHECKS = {
         note=NOTE_STD + "Meaning is proved for parenthesised substitutions only; the un-parenthesised splice is a recorded known finding.",
         technique="Lean 4 proof (expansion model: termination, missing refs, grouping) + textual and execution correspondence",
         design="§4 C15",
+    ),
+    "C12": dict(
+        text="Lean theorems at token level: the first line Note.to_string() writes (kind char, priority for todos that are not done, one space, stripped body) "
+        "is classified by the compiler model with the same kind, the same priority and the same body atoms (hence the same identity words, tags, links and "
+        "properties); the body survives up to outer whitespace (strip lemmas); kernel-checked counterexample for done todos whose body starts with Pn. "
+        "Tied to the code by rendering every note compiled from generated pages with to_string(), recompiling the renderings under a header in original and "
+        "shuffled order, and by swog.execute / refresh_zoq_file outputs on indexed directories.",
+        note=NOTE_STD + "Lexing of the rendered text = tokens of the original body rests on the token correspondence. The done-todo/Pn case is a recorded known finding.",
+        technique="Lean 4 proof (classification of rendered lines, strip idempotence) + render/recompile round trip",
+        design="§4 C12",
     ),
     "C14": dict(
         text="Lean theorem: Python's two str.replace passes ('[[A]'->'[[B]', then '[[A#'->'[[B#') equal the one-pass specification "
